@@ -108,7 +108,7 @@ fn fri_verify_layers(
     let len: usize = n_layers.to_biguint().try_into().unwrap();
 
     for i in 0..len {
-        let target_layer_witness = layer_witness.get(i).unwrap();
+        let target_layer_witness = layer_witness.get(i).ok_or(Error::LayerWitnessMissing)?;
         let mut target_layer_witness_leaves = target_layer_witness.leaves.to_owned();
         let target_layer_witness_table_withness = target_layer_witness.table_witness.to_owned();
         let target_commitment = commitment.get(i).unwrap().clone();
@@ -123,7 +123,8 @@ fn fri_verify_layers(
 
         // Compute next layer queries.
         let (next_queries, verify_indices, verify_y_values) =
-            compute_next_layer(&mut queries, &mut target_layer_witness_leaves, params).unwrap();
+            compute_next_layer(&mut queries, &mut target_layer_witness_leaves, params)
+                .map_err(|_| Error::LayerComputationError)?;
 
         // Table decommitment.
         table_decommit(
@@ -198,6 +199,12 @@ pub enum Error {
 
     #[error("Layer table decommitment error")]
     TableDecommit(#[from] swiftness_commitment::table::decommit::Error),
+
+    #[error("Layer computation error")]
+    LayerComputationError,
+
+    #[error("layer witness missing")]
+    LayerWitnessMissing,
 }
 
 #[cfg(not(feature = "std"))]
@@ -217,4 +224,10 @@ pub enum Error {
 
     #[error("Layer table decommitment error")]
     TableDecommit(#[from] swiftness_commitment::table::decommit::Error),
+
+    #[error("Layer computation error")]
+    LayerComputationError,
+
+    #[error("layer witness missing")]
+    LayerWitnessMissing,
 }
